@@ -132,3 +132,45 @@ def u_rules(schema: Schema, rep: Report):
 
 def _inside(node, container) -> bool:
     return any(x is node for x in ast.walk(container))
+
+
+def u_r7_index_deletion(schema: Schema, rep: Report):
+    """positional deletion from a list goes from the back"""
+    rep.rule("U-R7", "when groom()/ungroom() remove children by POSITION, the positions are visited in descending order: `for i in <ascending indices>: del elem[i]` shifts every later index, so with two vendor tags the second deletion removes a declared sibling instead")
+    p = schema.p
+    fns = []
+    for nm in ("groom", "ungroom"):
+        f = schema.aggregate.own_func(nm)
+        if f is not None:
+            fns.append((schema.aggregate, nm, f))
+    fns += list(groom_overrides(schema))
+    n = 0
+    for ci, nm, fn0 in fns:
+        from .flat import flat
+
+        fn = flat(p, ci.module, fn0, ci)
+        ex = Expander(fn)
+        for loop in [x for x in ast.walk(fn) if isinstance(x, ast.For) and isinstance(x.target, ast.Name)]:
+            iv = loop.target.id
+            dels = []
+            for x in ast.walk(loop):
+                if isinstance(x, ast.Delete):
+                    dels += [t for t in x.targets if isinstance(t, ast.Subscript) and isinstance(t.slice, ast.Name) and t.slice.id == iv]
+                if isinstance(x, ast.Call) and isinstance(x.func, ast.Attribute) and x.func.attr == "pop" and len(x.args) == 1 and isinstance(x.args[0], ast.Name) and x.args[0].id == iv:
+                    dels.append(x)
+            if not dels:
+                continue
+            n += 1
+            it = ex.x(loop.iter)
+            t = text(it)
+            descending = (isinstance(it, ast.Call) and text(it.func) == "reversed") or "reverse=True" in t or t.endswith("[::-1]") or (isinstance(it, ast.Call) and text(it.func) == "range" and len(it.args) == 3 and text(it.args[2]).startswith("-"))
+            ascending = (isinstance(it, (ast.ListComp, ast.GeneratorExp)) and any(isinstance(g.iter, ast.Call) and text(g.iter.func) == "enumerate" for g in it.generators)) or (isinstance(it, ast.Call) and text(it.func) == "range" and len(it.args) <= 2) or (isinstance(it, ast.Call) and text(it.func) == "sorted" and "reverse" not in t)
+            where = f"{ci.mod.relpath}:{loop.lineno}"
+            if descending:
+                rep.check("U-R7", f"{ci.name}.{nm}:positional-deletion-descending", True, "", where)
+            elif ascending:
+                rep.check("U-R7", f"{ci.name}.{nm}:positional-deletion-descending", False, f"children are deleted by index while iterating {t[:70]} in ascending order: after the first deletion every remaining index is off by one, so the wrong child is removed (or IndexError)", where)
+            else:
+                rep.note(f"U-R7 undecided: {ci.name}.{nm} deletes by index while iterating {t[:60]}")
+    if n == 0:
+        rep.check("U-R7", "groom:no-positional-deletion", True, "children are removed by identity, not by position", "")
